@@ -22,6 +22,57 @@ def must_pass(ctx, u, pred):
     return IN.get(cfg.exit.id, True)
 
 
+def absent_branch(lab, name):
+    """is CFG edge label `lab` the branch on which local `name` is None / falsy (`if not name`, `if name is None`, `if name`: else)?"""
+    if not lab or lab[0] not in ('T', 'F') or lab[1] is None:
+        return False
+    t, truth = lab[1], lab[0] == 'T'
+    while isinstance(t, ast.UnaryOp) and isinstance(t.op, ast.Not):
+        t, truth = t.operand, not truth
+    if isinstance(t, ast.Name) and t.id == name:
+        return not truth
+    if isinstance(t, ast.Compare) and len(t.ops) == 1 and isinstance(t.left, ast.Name) and t.left.id == name and isinstance(t.comparators[0], ast.Constant) \
+            and t.comparators[0].value is None:
+        if isinstance(t.ops[0], (ast.Is, ast.Eq)):
+            return truth
+        if isinstance(t.ops[0], (ast.IsNot, ast.NotEq)):
+            return not truth
+    return False
+
+
+def round_must_pass(ctx, u, lp, pred, excuse=None):
+    """does every round of loop lp (from its head back to its head, or out through its normal exit) pass through a CFG node whose
+    expression satisfies pred(root)?  Returns None when it does, else a CFG node that ends a round without it."""
+    P = ctx.P
+    cfg = ctx.cfg(u)
+    heads = [x for x in cfg.nodes if x.loop is lp]
+    if not heads:
+        return None
+    head = heads[0]
+
+    def tr(nd, st):
+        if nd is head:
+            return False
+        root = node_root(nd)
+        if root is not None and pred(root):
+            return True
+        return st
+    def refine(lab, st):
+        if excuse is not None and excuse(lab):
+            return True
+        return st
+    IN = solve_forward(cfg, False, tr, refine, lambda a, b: a and b)
+    for pnode, lab in head.pred:
+        if pnode.id not in IN or not (pnode.ast is not None and any(_inside(P, pnode.ast, s_) for s_ in lp.body)):
+            continue
+        out = tr(pnode, IN[pnode.id])
+        if lab is not None:
+            out = refine(lab, out)
+        if not out:
+            return pnode
+    return None
+
+
 def _inside(P, node, anc):
     cur = node
     while cur is not None:
@@ -201,6 +252,72 @@ def accumulate(ctx, rr):
                                 'answer collected so far' % u.qual, stmt='%s: exit without finalize' % u.qual))
     rr.require(nfin, 10, 'resumable requests with a finalize step')
     rr.require(n, 10, 'finalize() accumulators')
+    # any facade request, resumable or not: a collection that is grown inside a loop (or initialised empty before it) and read after
+    # the loop is not re-initialised inside that loop - the answer would cover the last round (the last prefix) only
+    from .cache_rules import CONTAINER_MUT
+    nl = 0
+
+    def empty_init(e):
+        if isinstance(e, (ast.List, ast.Set, ast.Tuple)) and not e.elts:
+            return True
+        if isinstance(e, ast.Dict) and not e.keys:
+            return True
+        if isinstance(e, ast.Call) and not e.args and isinstance(e.func, ast.Name) and e.func.id in ('set', 'list', 'dict'):
+            return True
+        if isinstance(e, ast.Call) and isinstance(e.func, ast.Name) and e.func.id == 'defaultdict':
+            return True
+        return False
+    for u in P.units:
+        if u.cls != 'Traph':
+            continue
+        loops = list(P.own(u, (ast.For, ast.While)))
+        for lp in loops:
+            nl += 1
+            inbody = lambda x: any(_inside(P, x, s_) for s_ in lp.body)
+            resets = {}
+            for a in P.own(u, ast.Assign):
+                if not inbody(a) or len(a.targets) != 1 or not isinstance(a.targets[0], ast.Name):
+                    continue
+                v = a.targets[0].id
+                if any(isinstance(x, ast.Name) and x.id == v for x in ast.walk(a.value)):
+                    continue
+                resets.setdefault(v, []).append(a)
+            for v, rs in resets.items():
+                grown = False
+                for x in P.own(u, (ast.AugAssign, ast.Call, ast.Assign)):
+                    if not inbody(x):
+                        continue
+                    if isinstance(x, ast.AugAssign):
+                        t = x.target
+                        if (isinstance(t, ast.Name) and t.id == v) or (isinstance(t, ast.Subscript) and isinstance(t.value, ast.Name) and t.value.id == v):
+                            grown = True
+                    elif isinstance(x, ast.Assign):
+                        if any(isinstance(t, ast.Subscript) and isinstance(t.value, ast.Name) and t.value.id == v for t in x.targets):
+                            grown = True
+                    elif isinstance(x.func, ast.Attribute):
+                        if isinstance(x.func.value, ast.Name) and x.func.value.id == v and x.func.attr in CONTAINER_MUT:
+                            grown = True
+                        if x.func.attr in ('heappush', 'heappushpop') and x.args and isinstance(x.args[0], ast.Name) and x.args[0].id == v:
+                            grown = True
+                before = [a for a in P.own(u, ast.Assign) if not inbody(a) and a.lineno < lp.lineno and any(isinstance(t, ast.Name) and t.id == v for t in a.targets)]
+                init_empty = bool(before) and all(empty_init(a.value) for a in before)
+                coll_reset = all(empty_init(a.value) or isinstance(a.value, (ast.ListComp, ast.SetComp, ast.DictComp)) or
+                                 (isinstance(a.value, ast.Call) and isinstance(a.value.func, ast.Name) and a.value.func.id in ('set', 'list', 'dict', 'sorted')) for a in rs)
+                end = getattr(lp, 'end_lineno', lp.lineno)
+                after = [x for x in P.own(u, ast.Name) if x.id == v and isinstance(x.ctx, ast.Load) and not _inside(P, x, lp) and x.lineno > end]
+                # a read after the loop that is preceded there by a fresh binding does not see the loop's value
+                rebound_after = [a for a in P.own(u, ast.Assign) if not _inside(P, a, lp) and a.lineno > end and any(isinstance(t, ast.Name) and t.id == v for t in a.targets)]
+                if rebound_after:
+                    first = min(a.lineno for a in rebound_after)
+                    after = [x for x in after if x.lineno <= first and not any(_inside(P, x, a.targets[0]) for a in rebound_after)]
+                bad = bool(after) and coll_reset and (grown or init_empty)
+                if not after or not coll_reset:
+                    continue
+                rr.ob(ctx.where(u, rs[0]), '%s: `%s`, read after the loop at line %d, is not re-initialised inside it' % (u.qual, v, lp.lineno), ok=not bad)
+                if bad:
+                    rr.fail(ctx.finding('R-ACCUMULATE', u, rs[0], '%s re-initialises `%s` inside the loop at line %d and reads it after the loop: only what the last round (the last prefix) '
+                                        'collected reaches the answer' % (u.qual, v, lp.lineno)))
+    rr.require(nl, 40, 'loops of facade requests')
 
 
 # ------------------------------------------------------------------------------------------------ R-STORAGE-STATELESS
@@ -418,7 +535,27 @@ def encoded(ctx, rr):
                     rr.fail(ctx.finding('R-ENCODED', u, cmp_, '%s compares the raw request value `%s` (`%s`): for a text LRU the comparison with bytes read back from the trie is '
                                         'always False, so e.g. a self-link is not recognised as internal' % (u.qual, raws[0], ast.unparse(cmp_)[:50]),
                                         stmt='%s: raw %s compared' % (u.qual, raws[0])))
+    # the RAM table of creation rules is looked up with the (bytes) prefixes read back from the trie: its keys are encoded too
+    nkeys = 0
+    for u in units:
+        cfg = ctx.cfg(u)
+        IN = results[u]
+        for n in cfg.nodes:
+            a = n.ast
+            if n.id not in IN or n.kind != 'stmt' or not isinstance(a, ast.Assign):
+                continue
+            for t in a.targets:
+                if isinstance(t, ast.Subscript) and self_attr(t.value) == 'webentity_creation_rules':
+                    nkeys += 1
+                    raw = _raw_names(P, u, t.slice, IN[n.id])
+                    rr.ob(ctx.where(u, a), '%s: the creation-rule table is keyed by an encoded prefix' % u.qual, ok=not raw)
+                    if raw:
+                        rr.fail(ctx.finding('R-ENCODED', u, a, '%s registers a creation rule under the raw request value `%s`: the table is looked up with the byte prefixes read back from '
+                                            'the trie, so a rule given as text is never found again (KeyError when a page below it is added)' % (u.qual, sorted(raw)[0]),
+                                            stmt='%s: raw rule key' % u.qual))
     rr.info['comparisons_checked'] = ncmp
+    rr.info['rule_keys_checked'] = nkeys
+    rr.require(nkeys, 1, 'registrations in the creation-rule table')
     rr.require(nsites, 15, 'LRU arguments handed to the trie')
     rr.info['private_helpers_with_raw_params'] = {t.qual: sorted(v) for t, v in raw_params.items() if is_private(t) and v}
 
@@ -457,10 +594,11 @@ def close_rule(ctx, rr):
             while cur is not None and cur is not u.node:
                 if isinstance(cur, ast.If) and st in cur.body:
                     tested = {self_attr(x) for x in ast.walk(cur.test) if self_attr(x)}
-                    ok = not tested or attr in tested
-                    rr.ob(ctx.where(u, c), 'close of self.%s is guarded by its own handle' % attr, ok=ok)
+                    ok = tested <= {attr}
+                    rr.ob(ctx.where(u, c), 'close of self.%s is guarded by its own handle only' % attr, ok=ok)
                     if not ok:
-                        rr.fail(ctx.finding('R-CLOSE', u, c, 'self.%s is closed under a test of %s' % (attr, sorted(tested))))
+                        rr.fail(ctx.finding('R-CLOSE', u, c, 'self.%s is closed under a test of %s: whether this file is flushed and closed then depends on the state of another '
+                                            'handle, and it can stay open with its last blocks unwritten' % (attr, sorted(tested - {attr}))))
                 st = cur
                 cur = P.parent.get(id(cur))
 
@@ -972,3 +1110,88 @@ def return_shape(ctx, rr):
             rr.fail(ctx.finding('R-RETURN-SHAPE', u, r, '%s returns `%s` on this path but a %s-tuple of (always present) objects elsewhere, and its callers unpack and use the '
                                 'result without a test: the path raises TypeError / AttributeError instead of reporting its outcome' % (u.qual, ast.unparse(r)[:40], tuples[0])))
     rr.require(n, 5, 'functions returning tuples')
+
+
+# ------------------------------------------------------------------------------------------------ R-GEN-DRAINED
+@rule('R-GEN-DRAINED')
+def gen_drained(ctx, rr):
+    """calling a generator function only creates the generator: a call whose value is dropped (an expression statement) runs
+    nothing of its body, so the writes / registrations the request stands for never happen"""
+    P = ctx.P
+    n = 0
+    for u in P.units:
+        for c in P.own(u, ast.Call):
+            tg = P.targets(c)
+            if not tg or not all(t.is_gen for t in tg):
+                continue
+            n += 1
+            par = P.parent.get(id(c))
+            dropped = isinstance(par, ast.Expr)
+            rr.ob(ctx.where(u, c), '%s: the generator made by `%s` is consumed' % (u.qual, ast.unparse(c.func)[:50]), ok=not dropped)
+            if dropped:
+                rr.fail(ctx.finding('R-GEN-DRAINED', u, c, '%s calls the generator function %s and drops the result: the body never runs (nothing is written, registered or '
+                                    'reported); the draining twin or run_iterator() was meant' % (u.qual, sorted(t.qual for t in tg)[0])))
+    rr.require(n, 60, 'calls of generator functions')
+
+
+# ------------------------------------------------------------------------------------------------ R-YIELD-NEUTRAL
+@rule('R-YIELD-NEUTRAL')
+def yield_neutral(ctx, rr):
+    """a cooperative yield point (`if state.should_yield(k): yield state`) only hands control back: what an iteration does with
+    its item does not depend on whether the counter happened to hit the threshold in that round"""
+    P = ctx.P
+    n = 0
+    for u in P.units:
+        if not u.is_gen:
+            continue
+        for i in P.own(u, ast.If):
+            calls = [c for c in ast.walk(i.test) if isinstance(c, ast.Call) and isinstance(c.func, ast.Attribute) and c.func.attr == 'should_yield']
+            if not calls:
+                continue
+            n += 1
+            only_yield = all(isinstance(s, ast.Expr) and isinstance(s.value, ast.Yield) for s in i.body)
+            lone_test = i.test is calls[0]
+            ok = only_yield and not i.orelse and lone_test
+            rr.ob(ctx.where(u, i), '%s: the yield point at line %d does nothing but yield' % (u.qual, i.lineno), ok=ok)
+            if not ok:
+                what = 'an else/elif branch runs only in the rounds that do not yield' if i.orelse else \
+                    ('the yield shares its test with another condition' if not lone_test else 'the yielding round also runs `%s`' % ast.unparse([s for s in i.body if not (isinstance(s, ast.Expr) and isinstance(s.value, ast.Yield))][0])[:40])
+                rr.fail(ctx.finding('R-YIELD-NEUTRAL', u, i, '%s: %s: the item visited in a round that yields (every k-th node) is treated differently from the others and can be '
+                                    'dropped from the answer' % (u.qual, what)))
+    rr.require(n, 12, 'cooperative yield points')
+
+
+# ------------------------------------------------------------------------------------------------ R-LAZY-REQUEST
+@rule('R-LAZY-REQUEST')
+def lazy_request(ctx, rr):
+    """a resumable request touches the index only while it is being advanced: every Traph.*_iter entry point is itself a generator
+    (nothing runs at creation), or a pure forwarder.  Work done at creation time (a node looked up or written, then handed to the
+    generator) is stale by the first step when another request ran in between."""
+    P = ctx.P
+    n = 0
+    INDEX = ('LRUTrie', 'LinkStore', 'LRUTrieNode', 'LinkStoreNode', 'LRUTrieHeader', 'LinkStoreHeader', 'FileStorage', 'MemoryStorage', 'MemMapStorage')
+    for name, u in P.require_class('Traph').items():
+        if not name.endswith('_iter'):
+            continue
+        n += 1
+        if u.is_gen:
+            rr.ob(ctx.where(u), '%s is a generator: nothing runs before the first step' % u.qual, ok=True)
+            continue
+        eager = [c for c in P.own(u, ast.Call) if any(not t.is_gen and (t.cls in INDEX or (t.cls == 'Traph' and t.name not in ('__encode',))) for t in P.targets(c))]
+        # what matters: a write at creation time, or a value obtained from the index then and handed to the generator
+        handed = set()
+        for r_ in P.own(u, ast.Return):
+            if r_.value is not None:
+                handed |= {x.id for x in ast.walk(r_.value) if isinstance(x, ast.Name)}
+
+        def result_names(c):
+            st_ = P.stmt_of(c)
+            if isinstance(st_, ast.Assign):
+                return {x.id for t_ in st_.targets for x in ast.walk(t_) if isinstance(x, ast.Name)}
+            return set()
+        eager = [c for c in eager if any(ctx.E.writes[t] for t in P.targets(c)) or (result_names(c) & handed) or isinstance(P.stmt_of(c), ast.Return)]
+        rr.ob(ctx.where(u), '%s is not a generator: it must only forward to one' % u.qual, ok=not eager)
+        for c in eager[:2]:
+            rr.fail(ctx.finding('R-LAZY-REQUEST', u, c, '%s runs `%s` when the request is created, not when it is advanced: what it reads or writes then (a node copy, a pointer) is stale by the '
+                                'first step if another request is advanced in between, and is written back over the newer block' % (u.qual, ast.unparse(c)[:50])))
+    rr.require(n, 12, 'resumable entry points (Traph.*_iter)')
